@@ -105,6 +105,9 @@ Definition dec_match (d : list byte) : res pres :=
    '(fs, e) <- dec_mfs (S (length d)) d 4 len ;;
    Ok (T KMatch [VN ty; VN len] fs, e))%res.
 
+(* an error that leaves a nil value behind which is then dereferenced *)
+Definition err_is_panic {A} (r : res A) : res A := match r with Err => Panic | x => x end.
+
 (* ---------------------------------------------------------------- actions *)
 Definition nxhdr_vals (d : list byte) : res (list val) :=     (* NXActionHeader.UnmarshalBinary, len >= 10 known *)
   (ty <- uat 2 d 0 ;; len <- uat 2 d 2 ;; v <- uat 4 d 4 ;; st <- uat 2 d 8 ;; Ok [VN ty; VN len; VN v; VN st])%res.
@@ -194,7 +197,8 @@ Fixpoint dec_action (fuel : nat) (d : list byte) : res tree :=
      else if N.eqb t 25 then
        (* the header's error is overwritten by the field's result *)
        let hv := match hdr_checked with Ok v => v | _ => [VN 0; VN 0] end in
-       r <- from d 4 ;; f <- dec_mf r ;; Ok (T KActSetField hv [f])
+       (* a field that fails to decode leaves a nil value behind, whose Len() the action calls *)
+       r <- from d 4 ;; f <- err_is_panic (dec_mf r) ;; Ok (T KActSetField hv [f])
      else if N.eqb t 65535 then
        if blen d <? 10 then Err else
        vendor <- uat 4 d 4 ;;
